@@ -70,11 +70,26 @@ def instance_line(jobs) -> str:
     return " ".join(out)
 
 
+REUSE_OPERATIONS = False     # set per scenario (meta "reuse_ops"): see build_instance
+
+
 def build_instance(jobs, name="verif") -> JobShopInstance:
-    return JobShopInstance(
-        [[Operation(list(ms) if len(ms) != 1 else ms[0], d) for ms, d in job] for job in jobs],
-        name=name,
-    )
+    ops = [[Operation(list(ms) if len(ms) != 1 else ms[0], d) for ms, d in job] for job in jobs]
+    if REUSE_OPERATIONS and sum(len(j) for j in ops) >= 3:
+        # the Operation objects were used before, in another instance with a different job structure (same first and last
+        # operation, the inner ones regrouped): the new instance labels them afresh
+        flat = [o for j in ops for o in j]
+        mid = flat[1:-1]
+        rotated = [flat[0]] + mid[1:] + mid[:1] + [flat[-1]]
+        earlier, at = [], 0
+        for j in ops:                      # same job lengths, the inner operations in other places
+            earlier.append(rotated[at:at + len(j)])
+            at += len(j)
+        JobShopInstance(earlier, name="earlier")
+        if len(ops) >= 2:                  # and once more with another number of jobs
+            JobShopInstance([flat[:1], flat[1:]], name="earlier2")
+            JobShopInstance(earlier, name="earlier")
+    return JobShopInstance(ops, name=name)
 
 
 def fmt_sop(x) -> str:
